@@ -527,6 +527,29 @@ def s5b(ctx, rep):
                       "float ranges decode to ints (values off the grid) and integer ranges to floats (wrong type)")
 
 
+def s5c(ctx, rep):
+    """the encoder of a finite range is built over the SAME grid as the domain: the size handed to
+    HyperparameterRangeFiniteRange is the number of grid positions (size / len(_uniform_int)), and len(FiniteRange) is that
+    number - not the number of distinct values, which is smaller when integer rounding makes grid values coincide"""
+    P = ctx.P
+    fr = P.cls("FiniteRange")
+    ln = fr.methods["__len__"]
+    rv = returns_of(ln)
+    ok = len(rv) == 1 and U(rv[0].value) in ("len(self._uniform_int)", "self.size")
+    rep.put(ok, "S1", "agreement", "FiniteRange.__len__ is the number of grid positions", ln, rv[0] if rv else None, "",
+            f"len(FiniteRange) is `{U(rv[0].value) if rv else '?'}`: the encoder is built with size=len(domain), so a different count gives it a coarser "
+            "(or finer) grid than the domain - decoded values are not members and members do not round-trip")
+    init = P.method("HyperparameterRangesImpl", "__init__")
+    mk = [x for x in walk_shallow(init.node) if isinstance(x, ast.Call) and fn_name(x) == "HyperparameterRangeFiniteRange"]
+    ok = len(mk) == 1 and kwarg(mk[0], "size") is not None
+    if ok:
+        sz = U(kwarg(mk[0], "size"))
+        dom = [U(a.args[0]) for a in [kwarg(mk[0], "size")] if isinstance(a, ast.Call) and fn_name(a) == "len" and a.args]
+        ok = (bool(dom) or sz.endswith(".size")) and U(kwarg(mk[0], "cast_int") or ast.Constant(value=None)).endswith(".cast_int")
+    rep.put(ok, "S1", "agreement", "HyperparameterRangesImpl.__init__: the finite-range encoder gets the domain's own grid size and integer flag", init,
+            mk[0] if mk else None, "", "the encoder of a finite range is built over another grid than the domain's")
+
+
 def s6(ctx, rep):
     """a numeric bound that was not given is recognised by `is None`: 0 is a legal bound"""
     from .common import numeric_optional_params, truthiness_uses
@@ -553,4 +576,5 @@ def run(ctx, rep, tier="quick"):
     s3(ctx, rep)
     s4(ctx, rep)
     s5b(ctx, rep)
+    s5c(ctx, rep)
     s6(ctx, rep)
